@@ -37,12 +37,15 @@ Record fixes := {
   fix_null_var : bool;   (* DESIGN defect 5: null check for values that arrive through variables *)
   fix_bool_num : bool;   (* DESIGN defect 26: booleans are not numeric *input* values *)
   fix_nn_flag : bool;    (* non-null wrapper keeps allowItemToListCoercion instead of resetting it *)
-  fix_rules_gate : bool  (* additional validator rules (ValidateCost) only run on documents the standard rules accept *)
+  fix_rules_gate : bool; (* additional validator rules (ValidateCost) only run on documents the standard rules accept *)
+  fix_item_object : bool (* TypeInfo: an object offered to a list type gets the field types of the item type *)
 }.
 Definition all_fixed : fixes :=
-  {| fix_null_var := true; fix_bool_num := true; fix_nn_flag := true; fix_rules_gate := true |}.
+  {| fix_null_var := true; fix_bool_num := true; fix_nn_flag := true; fix_rules_gate := true;
+     fix_item_object := true |}.
 Definition pinned : fixes :=
-  {| fix_null_var := false; fix_bool_num := false; fix_nn_flag := false; fix_rules_gate := false |}.
+  {| fix_null_var := false; fix_bool_num := false; fix_nn_flag := false; fix_rules_gate := false;
+     fix_item_object := false |}.
 
 (** the tag of the harness' custom scalar payload: "Tok" *)
 Definition tok_tag : name := [84; 111; 107]%N.
@@ -490,6 +493,10 @@ Section Model.
   Definition field_loc_default (d : in_def) : bool :=
     match in_default d with None => false | Some GNullSentinel => false | Some _ => true end.
 
+  (** NullableType, then through list wrappers: the innermost named type *)
+  Fixpoint leaf_type (t : sty) : sty :=
+    match t with StNonNull t' => leaf_type t' | StList t' => leaf_type t' | StNamed _ => t end.
+
   (** the walk of validateVariables over one value, with the expected type TypeInfo computed for
       it (None: TypeInfo has no entry, validateVariableUsage then reports "no type info") *)
   Fixpoint usage_ok (defs : list vardef) (l : lit) (expected : option sty) (loc_default : bool) : bool :=
@@ -508,7 +515,7 @@ Section Model.
            match l with [] => true | v :: r => usage_ok defs v item false && go r end) vs
     | LObject fs =>
         let fields := match expected with
-                      | Some t => match nullable_type t with
+                      | Some t => match (if fix_item_object fx then leaf_type t else nullable_type t) with
                                   | StNamed n => match aget n E with Some (TInput fields _) => fields | _ => [] end
                                   | _ => []
                                   end
